@@ -310,6 +310,7 @@ Definition stmt_text (en : env) (props : list string) (s : stmt) : string :=
      " = " ++ render en (pp_tok en v))%string
   | SSetThe k i v => ("set " ++ render en (pp_tok en (EThe k i)) ++ " = " ++ render en (pp_tok en v))%string
   | SSetAcc n o v => ("set " ++ render en (pp_tok en (EAcc n o)) ++ " = " ++ render en (pp_tok en v))%string
+  | SSetMenu pid it mn v => ("set " ++ render en (pp_tok en (EMenu pid it mn)) ++ " = " ++ render en (pp_tok en v))%string
   end.
 
 Definition leaf_like (k : lclass) (n : node) : Prop := match n with Leaf k' _ _ _ => k' = k | _ => False end.
@@ -328,6 +329,7 @@ Definition text_ok_s (en : env) (props : list string) (s : stmt) : Prop :=
   | SSetObj f _ o v => assignable f = true /\ text_ok en o /\ text_ok en v
   | SSetThe k i v => text_ok en (EThe k i) /\ starts_with "field(" (render en (pp_tok en (EThe k i))) = false /\ text_ok en v
   | SSetAcc n o v => text_ok en (EAcc n o) /\ text_ok en v
+  | SSetMenu pid it mn v => text_ok en (EMenu pid it mn) /\ text_ok en v
   end.
 
 Lemma args_text en l : text_ok_args en l -> forall pc ind,
@@ -351,7 +353,12 @@ Theorem stmt_line en props s : text_ok_s en props s -> forall pc ind,
   gen_lingo (reify_s en props pc s) ind = (indent ind ++ stmt_text en props s ++ "
 ")%string.
 Proof.
-  destruct s as [t e|f args|f args|fam pid o v|tk ti tv|an ao av]; intros Hok pc ind; [| | | | |].
+  destruct s as [t e|f args|f args|fam pid o v|tk ti tv|an ao av|mp mi mm mv]; intros Hok pc ind; [| | | | | |].
+  7:{ destruct Hok as (Hk & Hv). cbn [reify_s stmt_text].
+      pose proof (gen_lingo_is_render en (EMenu mp mi mm) Hk pc ind) as Hl. cbn [reify_e] in Hl.
+      erewrite assign_line; [reflexivity | | apply (gen_lingo_is_render en mv Hv) | ].
+      - etransitivity; [|exact Hl]. unfold gen_lingo. cbn [gen_lingo_sp]. reflexivity.
+      - cbn [pp_tok]. norm_render. reflexivity. }
   6:{ destruct Hok as (Hk & Hv). cbn [reify_s stmt_text].
       pose proof (gen_lingo_is_render en (EAcc an ao) Hk pc ind) as Hl. cbn [reify_e] in Hl.
       erewrite assign_line; [reflexivity | | apply (gen_lingo_is_render en av Hv) | ].
